@@ -432,21 +432,32 @@ func (c *Client) recv(keepaliveQuit chan<- struct{}, keepaliveDone <-chan struct
 	// with the next connection. A ping that is already under way is waited for, so that
 	// it cannot hit (or close) the connection of the next session - but not for ever: a
 	// peer that has stopped reading can keep a write blocked indefinitely.
+	// The same holds for the go routines that answer acknowledgement requests (see below): the ones
+	// that have not started to write give up, the one that is writing is waited for.
 	keepaliveStopped := false
+	// closed when the answer to the latest acknowledgement request has been written
+	var answered chan struct{}
+	// closed when this session is over: answers that are still waiting for their turn are dropped
+	sessionOver := make(chan struct{})
 	stopKeepalive := func() {
 		if !keepaliveStopped {
 			keepaliveStopped = true
 			close(keepaliveQuit)
+			close(sessionOver)
+			timeout := time.After(time.Duration(c.config.ConnectTimeout) * time.Second)
 			select {
 			case <-keepaliveDone:
-			case <-time.After(time.Duration(c.config.ConnectTimeout) * time.Second):
+			case <-timeout:
+			}
+			if answered != nil {
+				select {
+				case <-answered:
+				case <-timeout:
+				}
 			}
 		}
 	}
 	defer stopKeepalive()
-
-	// closed when the answer to the latest acknowledgement request has been written
-	var answered chan struct{}
 
 	for {
 		val, err := stanza.NextPacket(c.transport.GetDecoder())
@@ -488,7 +499,17 @@ func (c *Client) recv(keepaliveQuit chan<- struct{}, keepaliveDone <-chan struct
 			go func() {
 				defer close(done)
 				if prev != nil {
-					<-prev
+					select {
+					case <-prev:
+					case <-sessionOver:
+						return
+					}
+				}
+				select {
+				case <-sessionOver:
+					// The transport may already carry the next connection: this answer has no addressee.
+					return
+				default:
 				}
 				_ = c.Send(answer)
 			}()
